@@ -214,3 +214,344 @@ Proof.
 Qed.
 
 End ExecStmt.
+
+(* ================================================================ 3. the plan nodes on top *)
+
+(* FinalLimitPlan over any child (Model/LimitLazy.v): no failure of its own *)
+Section LimitNode.
+Variable S A : Type.
+Variable cnext : S -> res (option A * S).
+Variable cbatch : S -> res (list A * S).
+Variable E : err -> Prop.
+Hypothesis Hnext : forall s, okerr E (cnext s).
+Hypothesis Hbatch : forall s, okerr E (cbatch s).
+
+Lemma lskip_okerr : forall n s, okerr E (lskip cnext n s).
+Proof.
+  induction n as [|n IH]; intros s; cbn [lskip]; [exact I|].
+  apply okerr_bind; [apply Hnext|]. intros [[row|] s'] _; [|exact I].
+  apply okerr_bind; [apply IH|]. intros [[k e] s''] _. exact I.
+Qed.
+
+Lemma lnext_okerr : forall start count st s, okerr E (lnext cnext start count st s).
+Proof.
+  intros start count st s. unfold lnext.
+  apply okerr_bind; [apply lskip_okerr|]. intros [[k ended] s1] _.
+  destruct ended; [exact I|]. destruct (count <=? Limit.current st); [exact I|].
+  apply okerr_bind; [apply Hnext|]. intros [[row|] s2] _; exact I.
+Qed.
+
+Lemma ldrain_row_fuel_okerr : forall fuel start count st s,
+  okerr E (ldrain_row_fuel cnext fuel start count st s).
+Proof.
+  induction fuel as [|f IH]; intros start count st s; cbn [ldrain_row_fuel]; [exact I|].
+  apply okerr_bind; [apply lnext_okerr|]. intros [[[row|] st'] s'] _; [|exact I].
+  apply okerr_bind; [apply IH|]. intros out _. exact I.
+Qed.
+
+Lemma ldrain_row_okerr : forall start count s, okerr E (ldrain_row cnext start count s).
+Proof. intros. apply ldrain_row_fuel_okerr. Qed.
+
+Lemma lskip_batch_okerr : forall fuel start sk s, okerr E (lskip_batch cbatch fuel start sk s).
+Proof.
+  induction fuel as [|f IH]; intros start sk s; cbn [lskip_batch];
+    (destruct (sk <? start); [|exact I]); [exact I|].
+  apply okerr_bind; [apply Hbatch|]. intros [b s'] _.
+  destruct (List.length b =? 0); [exact I|]. destruct (List.length b <=? start - sk); [apply IH | exact I].
+Qed.
+
+Lemma lfill_okerr : forall fuel B count cur ret cnt s, okerr E (lfill cbatch fuel B count cur ret cnt s).
+Proof.
+  induction fuel as [|f IH]; intros B count cur ret cnt s; cbn [lfill]; [exact I|].
+  apply okerr_bind; [apply Hbatch|]. intros [b s'] _.
+  destruct (List.length b =? 0); [exact I|].
+  destruct (Limit.take_fill count cur b ret cnt) as [[[ret' cur'] cnt'] fin].
+  destruct fin; [exact I|]. destruct (B <=? cnt'); [exact I | apply IH].
+Qed.
+
+Lemma lbatch_okerr : forall B start count st s, okerr E (lbatch cbatch B start count st s).
+Proof.
+  intros B start count st s. unfold lbatch.
+  apply okerr_bind; [apply lskip_batch_okerr|]. intros [[[rows|] sk] s1] _; [|exact I].
+  destruct (Limit.take_left count (Limit.current st) rows [] 0) as [[ret cur] cnt].
+  destruct (count <=? cur); [exact I|].
+  apply okerr_bind; [apply lfill_okerr|]. intros [[ret' cur'] s2] _. exact I.
+Qed.
+
+Lemma ldrain_batch_fuel_okerr : forall fuel B start count st s,
+  okerr E (ldrain_batch_fuel cbatch fuel B start count st s).
+Proof.
+  induction fuel as [|f IH]; intros B start count st s; cbn [ldrain_batch_fuel]; [exact I|].
+  apply okerr_bind; [apply lbatch_okerr|]. intros [[out st'] s'] _.
+  destruct out; [exact I|]. apply okerr_bind; [apply IH|]. intros outs _. exact I.
+Qed.
+
+End LimitNode.
+
+(* ProjectionPlan.Next / .Batch over the scan: one step *)
+Section ProjStep.
+Variable P R : Type.
+Variable frow : P -> res bool.
+Variable fbatch : list P -> res (list bool).
+Variable prow : P -> res R.
+Variable pbatch : list P -> res (list R).
+Variable E : err -> Prop.
+Hypothesis Hfrow : forall kv, okerr E (frow kv).
+Hypothesis Hprow : forall kv, okerr E (prow kv).
+Hypothesis Hfbatch : forall c, match fbatch c with
+                               | Ok bs => List.length bs = List.length c
+                               | Err x => E x
+                               | Panic => False
+                               | OutOfModel => True
+                               end.
+Hypothesis Hpbatch : forall c, okerr E (pbatch c).
+
+Lemma scan_next_okerr : forall rest, okerr E (ScanProj.scan_next frow rest).
+Proof.
+  induction rest as [|[kv|] rest IH]; cbn [ScanProj.scan_next]; [exact I | | exact IH].
+  apply okerr_bind; [apply Hfrow|]. intros ok _. destruct ok; [exact I | exact IH].
+Qed.
+
+Lemma proj_next_okerr : forall rest, okerr E (ScanProj.proj_next frow prow rest).
+Proof.
+  intros rest. unfold ScanProj.proj_next. apply okerr_bind; [apply scan_next_okerr|].
+  intros [[kv|] rest'] _; [|exact I]. apply okerr_bind; [apply Hprow|]. intros row _. exact I.
+Qed.
+
+Lemma proj_batch_okerr : forall B rest, okerr E (ScanProj.proj_batch fbatch pbatch B rest).
+Proof.
+  intros B rest. unfold ScanProj.proj_batch, ScanProj.scan_batch.
+  apply okerr_bind; [apply scan_loop_okerr; exact Hfbatch|]. intros [kvs rest'] _.
+  destruct kvs; [exact I|]. apply okerr_bind; [apply Hpbatch|]. intros rows _. exact I.
+Qed.
+
+(* no batch handed out by the drain is empty *)
+Lemma drain_batch_fuel_nonempty : forall fuel B rest outs,
+  ScanProj.drain_batch_fuel fbatch pbatch fuel B rest = Ok outs -> Forall (fun b => b <> []) outs.
+Proof.
+  induction fuel as [|f IH]; intros B rest outs H; cbn [ScanProj.drain_batch_fuel] in H; [discriminate|].
+  destruct (ScanProj.proj_batch fbatch pbatch B rest) as [[rows rest']|x| |]; cbn [bind] in H; try discriminate.
+  destruct rows as [|r rows]; [inversion H; constructor|].
+  destruct (ScanProj.drain_batch_fuel fbatch pbatch f B rest') as [outs'|x| |] eqn:Ed; cbn [bind] in H; try discriminate.
+  inversion H; subst. constructor; [discriminate | exact (IH _ _ _ Ed)].
+Qed.
+
+End ProjStep.
+
+(* FinalOrderPlan over a child that hands out no empty batch: no failure of its own (the heap
+   is never popped empty: Proofs/NoPanicOrderProofs.v) *)
+Section OrderNodeOk.
+Variable C : Type.
+Variable crows : C -> res (list Order.row).
+Variable cbats : C -> res (list (list Order.row)).
+Variable pi pf : bytes -> option Z.
+Variable ords : list Order.ofield.
+Variable E : err -> Prop.
+
+Lemma ord_row_okerr : forall c, okerr E (crows c) -> okerr E (ord_row C crows pi pf ords c).
+Proof.
+  intros c Hc. unfold ord_row. apply okerr_bind; [exact Hc|]. intros rows _.
+  pose proof (NoPanicOrderProofs.order_drain_row_total pi pf ords rows) as Ht.
+  destruct (Order.drain_row pi pf ords rows); [exact I | contradiction].
+Qed.
+
+Lemma ord_batch_okerr : forall B c, okerr E (cbats c) ->
+  (forall bs, cbats c = Ok bs -> Forall (fun b : list Order.row => b <> []) bs) ->
+  okerr E (ord_batch C cbats pi pf ords B c).
+Proof.
+  intros B c Hc Hne. unfold ord_batch. apply okerr_bind; [exact Hc|]. intros bs Eb.
+  pose proof (NoPanicOrderProofs.order_drain_batch_total pi pf ords B bs (Hne bs Eb)) as Ht.
+  destruct (Order.drain_batch pi pf ords B bs); [exact I | contradiction].
+Qed.
+
+End OrderNodeOk.
+
+(* ================================================================ 4. the plan shapes over the
+   projection, and the text *)
+From KV Require Import Model.Pipeline Model.PipelineW Model.PipelineS Model.StmtParser Model.ParseCheck Proofs.PipelineSProofs.
+
+Section Shapes.
+Variable fo : fops.
+Variable re : bytes -> bytes -> res bool.
+Variable ag : aggops fo.
+Variable pi pf : bytes -> option Z.
+
+Notation shape_row := (select_shape_row fo re ag pi pf).
+Notation shape_batch := (select_shape_batch fo re ag pi pf).
+
+(* the final plans over a ProjectionPlan covered here *)
+Definition proj_shape (sh : shape) : Prop :=
+  match sh with
+  | SProj | SLimit _ _ SProj | SOrder _ SProj => True
+  | _ => False
+  end.
+
+(* FinalOrderPlan.Init finds every ORDER BY name among the field names *)
+Definition orders_resolve (c : cstmt fo) (sh : shape) : Prop :=
+  match sh with
+  | SOrder os _ =>
+      Order.init_orders os (SelectPlans.s_names (F fo) (q_stmt fo c)) (SelectPlans.s_types (F fo) (q_stmt fo c)) <> None
+  | _ => True
+  end.
+
+Definition esites (c : cstmt fo) : err -> Prop :=
+  fun x => In x (stmt_sites (q_where fo c) (q_fields fo c)).
+
+Lemma c_prow_okerr : forall c kv, fields_ready (row_safe fo re) (q_fields fo c) ->
+  okerr (esites c) (c_prow fo re ag (q_fields fo c) kv).
+Proof.
+  intros c kv Hf. unfold c_prow. apply okerr_bind; [exact (sel_prow_okerr_s fo re _ _ kv Hf)|].
+  intros r _. exact I.
+Qed.
+
+Lemma c_pbatch_okerr : forall c ch, fields_ready (vec_safe fo re) (q_fields fo c) ->
+  okerr (esites c) (c_pbatch fo re ag (q_fields fo c) ch).
+Proof.
+  intros c ch Hf. unfold c_pbatch. apply okerr_bind; [exact (sel_pbatch_okerr_s fo re _ _ ch Hf)|].
+  intros r _. exact I.
+Qed.
+
+Theorem shape_row_safe : forall c sh sl,
+  row_safe fo re (q_where fo c) -> rtype (q_where fo c) = TBool ->
+  fields_ready (row_safe fo re) (q_fields fo c) ->
+  proj_shape sh -> orders_resolve c sh ->
+  okerr (esites c) (shape_row c sh sl).
+Proof.
+  intros c sh sl Hw Ht Hf Hsh Hor.
+  assert (Hfrow : forall kv, okerr (esites c) (sel_frow fo re (q_where fo c) kv))
+    by (intros kv; exact (sel_frow_okerr_s fo re _ _ kv Hw Ht)).
+  assert (Hprow : forall kv, okerr (esites c) (c_prow fo re ag (q_fields fo c) kv))
+    by (intros kv; apply c_prow_okerr; exact Hf).
+  assert (Hrows : forall sl', okerr (esites c)
+            (ScanProj.drain_row (sel_frow fo re (q_where fo c)) (c_prow fo re ag (q_fields fo c)) sl'))
+    by (intros sl'; apply drain_row_okerr; assumption).
+  unfold select_shape_row.
+  destruct sh as [| |os ch|st n ch]; try contradiction.
+  - (* SProj *) cbn [run_shape_row]. unfold proj_rows. apply Hrows.
+  - (* SOrder os SProj *)
+    destruct ch; try contradiction. cbn [run_shape_row orders_resolve] in *. unfold with_ords.
+    destruct (Order.init_orders os _ _) as [ords|]; [|contradiction].
+    apply ord_row_okerr. unfold proj_rows. apply Hrows.
+  - (* SLimit st n SProj *)
+    destruct ch; try contradiction. cbn [run_shape_row].
+    apply ldrain_row_okerr. intros s. apply proj_next_okerr; assumption.
+Qed.
+
+Theorem shape_batch_safe : forall B c sh sl,
+  vec_safe fo re (q_where fo c) -> rtype (q_where fo c) = TBool ->
+  fields_ready (vec_safe fo re) (q_fields fo c) ->
+  proj_shape sh -> orders_resolve c sh ->
+  okerr (esites c) (shape_batch B c sh sl).
+Proof.
+  intros B c sh sl Hw Ht Hf Hsh Hor.
+  assert (Hfb : forall ch, match filter_batch fo re true (q_where fo c) ch with
+                           | Ok bs => List.length bs = List.length ch
+                           | Err x => esites c x
+                           | Panic => False
+                           | OutOfModel => True
+                           end)
+    by (intros ch; exact (sel_fbatch_okcol_s fo re _ _ ch Hw Ht)).
+  assert (Hpb : forall ch, okerr (esites c) (c_pbatch fo re ag (q_fields fo c) ch))
+    by (intros ch; apply c_pbatch_okerr; exact Hf).
+  assert (Hbats : forall sl', okerr (esites c)
+            (ScanProj.drain_batch (filter_batch fo re true (q_where fo c)) (c_pbatch fo re ag (q_fields fo c)) B sl'))
+    by (intros sl'; apply drain_batch_okerr; assumption).
+  unfold select_shape_batch.
+  destruct sh as [| |os ch|st n ch]; try contradiction.
+  - cbn [run_shape_batch]. unfold proj_bats. apply okerr_bind; [apply Hbats|]. intros outs _. exact I.
+  - destruct ch; try contradiction. cbn [run_shape_batch orders_resolve] in *. unfold with_ords.
+    destruct (Order.init_orders os _ _) as [ords|]; [|contradiction].
+    apply okerr_bind; [|intros outs _; exact I].
+    apply ord_batch_okerr; [unfold proj_bats; apply Hbats|].
+    intros bs Eb. unfold proj_bats, ScanProj.drain_batch in Eb. exact (drain_batch_fuel_nonempty _ _ _ _ _ _ _ _ Eb).
+  - destruct ch; try contradiction. cbn [run_shape_batch].
+    apply okerr_bind; [|intros outs _; exact I].
+    apply ldrain_batch_fuel_okerr. intros s. apply proj_batch_okerr; assumption.
+Qed.
+
+End Shapes.
+
+Section TextSafe.
+Variable fo : fops.
+Variable re : bytes -> bytes -> res bool.
+Hypothesis re_ok : forall p t, match re p t with Err x => x = EOther | Panic => False | _ => True end.
+Variable fmt_v : F fo -> string.
+Variable ag : aggops fo.
+Variable pi pf : bytes -> option Z.
+
+(* the statement Parser.Parse hands to its checks, and what they return *)
+Definition parsed_stmt (x : select_t) : Checker.stmt :=
+  SSelect (combine (StmtParser.s_names x) (s_fields x)) (s_where x) (order_items (StmtParser.s_order x)).
+Definition checked_stmt (pl : splanned fo) : Checker.stmt :=
+  SSelect (sp_fields fo pl) (sp_where fo pl) (order_items (StmtParser.s_order (sp_select fo pl))).
+
+(* the front end of the text pipeline accepts = build_check accepts the parser's statement *)
+Lemma front_s_build_check : forall q x fields w,
+  front_s fo q = STOk (x, fields, w) ->
+  build_check fo true (parsed_stmt x) = Ok (SSelect fields w (order_items (StmtParser.s_order x))).
+Proof.
+  intros q x fields w. unfold PipelineS.front_s.
+  destruct (pc_oom fo q (Lexer.lex q)); [discriminate|].
+  destruct (head_kind (Lexer.lex q)); try discriminate.
+  destruct (parse_real fo (Lexer.lex q)) as [s|z| |]; try discriminate.
+  destruct s as [x0| | |]; try discriminate.
+  unfold to_check_s.
+  destruct (negb (Nat.eqb (List.length (StmtParser.s_names x0)) (List.length (s_fields x0)))); [discriminate|].
+  intros H. apply stbind_ok in H. destruct H as (c2 & E1 & H). apply of_front_ok in E1.
+  apply stbind_ok in H. destruct H as (u & E2 & H). apply of_front_ok in E2.
+  destruct c2 as [fields2 w2 order2| | |]; try discriminate. injection H as <- <- <-.
+  pose proof (check_stmt_select_order fo _ _ _ _ E1) as (f' & w' & E). injection E as _ _ <-.
+  unfold build_check, parsed_stmt. rewrite E1. cbn [bind]. rewrite E2. destruct u. reflexivity.
+Qed.
+
+(* accepted_text_type_safe, projection shapes.  For every query text the text pipeline plans
+   ([plan_stmt_text] = NewOptimizer(q).BuildPlan accepted), whose final plan is a ProjectionPlan,
+   a FinalLimitPlan over it or a FinalOrderPlan over it, every store, both iteration modes, any
+   batch size: the drain ends in rows or in a data-dependent failure of the trees the plan
+   executes (the folded WHERE tree and fields) -- never an operand-type error, never a panic.
+   What stays premise is named in the statement. *)
+Theorem accepted_text_safe : forall q pl,
+  plan_stmt_text fo re fmt_v q = STOk pl ->
+  is_agg fo pl = false ->                                            (* no aggregate / GROUP BY *)
+  fields_ranked (combine (StmtParser.s_names (sp_select fo pl)) (s_fields (sp_select fo pl))) ->
+  stmt_no_refs (parsed_stmt (sp_select fo pl)) = true ->
+  stmt_frag (checked_stmt pl) = true -> stmt_params_static (checked_stmt pl) = true ->
+  proj_shape (sp_shape fo pl) -> orders_resolve fo (sp_q fo pl) (sp_shape fo pl) ->
+  forall d m, okerr (esites fo (sp_q fo pl)) (drain_planned fo re ag pi pf pl d m).
+Proof.
+  intros q pl Ep Hag Hrk Hnr Hfr Hps Hsh Hor d m.
+  destruct (plan_stmt_text_inv fo re fmt_v q pl Ep) as (Ef & Ew & _ & Eq & _).
+  cbv zeta in Ef, Ew, Eq. specialize (Eq Hag).
+  pose proof (front_s_build_check q _ _ _ Ef) as Hb.
+  pose proof (accepted_select_exec_safe fo re re_ok fmt_v _ _ _ _ (s_all (sp_select fo pl)) [] Hb Hrk Hnr Hfr Hps)
+    as (Rw & Sw & Vw & Fr & Fv & _).
+  assert (Eqf : q_fields fo (sp_q fo pl) = exec_fields fo re fmt_v (s_all (sp_select fo pl)) (sp_fields fo pl)).
+  { rewrite Eq. unfold exec_fields, PipelineS.exec_of. reflexivity. }
+  unfold PipelineS.exec_of in Ew.
+  unfold drain_planned, PipelineS.run_mode. destruct m as [|B].
+  - apply shape_row_safe; try assumption; rewrite ?Ew, ?Eqf; assumption.
+  - apply shape_batch_safe; try assumption; rewrite ?Ew, ?Eqf; assumption.
+Qed.
+
+(* the same on the outcome of the text pipeline itself *)
+Theorem accepted_text_safe_st : forall q pl,
+  plan_stmt_text fo re fmt_v q = STOk pl ->
+  is_agg fo pl = false ->
+  fields_ranked (combine (StmtParser.s_names (sp_select fo pl)) (s_fields (sp_select fo pl))) ->
+  stmt_no_refs (parsed_stmt (sp_select fo pl)) = true ->
+  stmt_frag (checked_stmt pl) = true -> stmt_params_static (checked_stmt pl) = true ->
+  proj_shape (sp_shape fo pl) -> orders_resolve fo (sp_q fo pl) (sp_shape fo pl) ->
+  forall d m,
+  match select_stmt_text_st fo re fmt_v ag pi pf q d m with
+  | STRunErr e => esites fo (sp_q fo pl) e
+  | STOk _ | STOom => True
+  | _ => False
+  end.
+Proof.
+  intros q pl Ep Hag Hrk Hnr Hfr Hps Hsh Hor d m.
+  pose proof (accepted_text_safe q pl Ep Hag Hrk Hnr Hfr Hps Hsh Hor d m) as H.
+  unfold select_stmt_text_st. rewrite Ep. cbn [stbind].
+  destruct (drain_planned fo re ag pi pf pl d m); cbn [of_drain okerr] in *; auto.
+Qed.
+
+End TextSafe.
